@@ -8,7 +8,12 @@
 use std::collections::{BTreeMap, BTreeSet};
 use std::time::Duration;
 
-use alpenglow::consensus::{Cert, ConsensusMessage, Vote};
+use std::sync::Arc;
+
+use alpenglow::consensus::{Blockstore, BlockstoreEvent, BlockstoreImpl, Cert, ConsensusMessage, SharedBlockstore, Vote};
+use alpenglow::repair::{RepairRequest, RepairRequestHandler, RepairRequestType, RepairResponse};
+use alpenglow::shredder::Shred;
+use alpenglow::Transaction;
 use alpenglow::crypto::merkle::BlockHash;
 use alpenglow::types::Slot;
 use alpenglow::{BlockId, ValidatorIndex};
@@ -18,7 +23,7 @@ use crate::cluster::{DissemKind, register_puppet, spawn_node};
 use crate::kernel;
 use crate::keys;
 use crate::model::{self, Blk, CK, CertView, SlotModel, VK, Verdict};
-use crate::net::{Iface, NetCfg, NetCore, SharedNet, port_of, pump};
+use crate::net::{Iface, NetCfg, NetCore, SharedNet, SimNet, port_of, pump};
 use crate::props::WorldOutcome;
 use crate::wire;
 
@@ -76,10 +81,10 @@ pub fn run(max_windows: u64) -> WorldOutcome {
         tokio::spawn(pump(net.clone()));
         let mut keep = Vec::new();
         let mut handle = None;
+        handle = Some(spawn_node(real, &vals, &stakes, &net, DissemKind::Trivial)).or(handle);
+        let answer_repairs = kernel::choose(E, 4) != 0;
         for i in 0..n {
-            if i == real {
-                handle = Some(spawn_node(i, &vals, &stakes, &net, DissemKind::Trivial));
-            } else {
+            if i != real && !answer_repairs {
                 keep.push(register_puppet(i, &net));
             }
         }
@@ -183,7 +188,49 @@ pub fn run(max_windows: u64) -> WorldOutcome {
             }
         }
         script.sort_by_key(|x| x.0);
-        kernel::event(&format!("solo n={n} stakes={stakes:?} windows={windows} script={}", script.len()));
+        kernel::event(&format!("solo n={n} stakes={stakes:?} windows={windows} script={} repairs_answered={answer_repairs}", script.len()));
+        if answer_repairs {
+            // the puppets answer repair requests with real responders: two block stores, one holding the
+            // first block of every slot, the other the second (where a slot has two), shared by the
+            // even and the odd puppets -- so a block the node never got from dissemination (e.g. the
+            // other block of an equivocating leader) can still become known to its pool
+            let mut stores: Vec<SharedBlockstore> = Vec::new();
+            for variant in 1..=2u64 {
+                let (tx, mut rx) = tokio::sync::mpsc::channel::<BlockstoreEvent>(100_000);
+                tokio::spawn(async move { while rx.recv().await.is_some() {} });
+                let mut bsi = BlockstoreImpl::new(tx);
+                for (b, blk) in &built {
+                    let want = if blocks_by_slot.get(&b.0).map_or(0, Vec::len) >= 2 { variant } else { 1 };
+                    if b.1 != want {
+                        continue;
+                    }
+                    for slice in &blk.shreds {
+                        for sh in slice {
+                            let _ = bsi.add_shred_from_dissemination(sh.clone()).await;
+                        }
+                    }
+                }
+                stores.push(Arc::new(tokio::sync::RwLock::new(bsi)));
+            }
+            for i in 0..n {
+                if i == real {
+                    continue;
+                }
+                let mut k: Vec<Box<dyn std::any::Any>> = Vec::new();
+                k.push(Box::new(SimNet::<ConsensusMessage, ConsensusMessage>::new(&net, port_of(i, Iface::A2A))));
+                k.push(Box::new(SimNet::<Shred, Shred>::new(&net, port_of(i, Iface::Dissem))));
+                k.push(Box::new(SimNet::<RepairRequest, RepairResponse>::new(&net, port_of(i, Iface::RepairReq))));
+                k.push(Box::new(SimNet::<Transaction, Transaction>::new(&net, port_of(i, Iface::Tx))));
+                keep.push(k);
+                let rp = SimNet::<RepairResponse, RepairRequest>::new(&net, port_of(i, Iface::RepairResp));
+                let handler = RepairRequestHandler::new(keys::vepoch(i, &stakes), stores[i % 2].clone(), rp);
+                tokio::spawn(async move {
+                    kernel::set_task_name("puppet-repair-responder");
+                    handler.run().await;
+                });
+            }
+            kernel::fault("puppets_answer_repair_requests");
+        }
 
         // ---- play the script
         let src = n + 3;
@@ -255,7 +302,27 @@ pub fn run(max_windows: u64) -> WorldOutcome {
         // ---- collect what the real node broadcast
         let mut own_votes: Vec<(u64, u64, VK, u64, Option<BlockHash>)> = Vec::new();
         let mut own_certs: Vec<(u64, CK, u64, Option<BlockHash>)> = Vec::new();
+        // blocks the node may have learnt through repair: known (at the earliest) when the first
+        // response about them left a puppet
+        let mut repaired: Vec<(u64, BlockId)> = Vec::new();
         for rec in net.lock().unwrap().taps.iter() {
+            if rec.from_node != real && rec.from_iface == Iface::RepairResp {
+                if let Ok(resp) = alpenglow::network::deserialize::<RepairResponse>(&rec.bytes) {
+                    let rt = match &resp {
+                        RepairResponse::Nack(_) => None,
+                        RepairResponse::LastSliceRoot(rt, ..) | RepairResponse::SliceRoot(rt, ..) | RepairResponse::Shred(rt, ..) => Some(rt),
+                    };
+                    if let Some(rt) = rt {
+                        let bid = match rt {
+                            RepairRequestType::LastSliceRoot(b) | RepairRequestType::SliceRoot(b, _) | RepairRequestType::Shred(b, _, _) => b.clone(),
+                        };
+                        if !repaired.iter().any(|(_, b)| *b == bid) {
+                            repaired.push((rec.at_ms, bid));
+                        }
+                    }
+                }
+                continue;
+            }
             if rec.from_node != real || rec.from_iface != Iface::A2A {
                 continue;
             }
@@ -286,6 +353,15 @@ pub fn run(max_windows: u64) -> WorldOutcome {
             h.cancel.cancel();
         }
         let _ = keep;
+        // repaired blocks enter the oracle's knowledge as deliveries of the block at that time
+        for (at, bid) in repaired {
+            if let Some((b, _)) = hashes.iter().find(|(b, h)| b.0 == bid.0.inner() && **h == bid.1)
+                && let Some(parent) = blocks_by_slot.get(&b.0).and_then(|v| v.iter().find(|(x, _)| x == b)).map(|(_, p)| *p)
+            {
+                kernel::probe("solo_block_possibly_learnt_by_repair");
+                deliveries.push(Delivery { at_ms: at, what: In::Block { b: *b, parent } });
+            }
+        }
         (deliveries, hashes, own_votes, own_certs, kernel::now_ms())
     });
     drop(rt);
